@@ -42,7 +42,8 @@ LEAN_NAMES = {"cnt_store": (_CNT, "cnt_store"), "cnt_const": (_CNT, "cnt_const")
               "weighted_variance": (_CNT, "weighted_variance"), "row_mean_bounds": (_CNT, "mean_bounds"),
               "sum_empty": (_SUM, "sum_empty"), "sum_nonneg": (_SUM, "sum_nonneg"), "sum_nonpos": (_SUM, "sum_nonpos"),
               "sum_congr": (_SUM, "sum_congr"), "sum_scale": (_SUM, "sum_scale"), "sum_le": (_SUM, "sum_le"), "sum_bounds": (_SUM, "sum_bounds"),
-              "exp_log_inverse": (_SUM, "exp_log_inverse"), "sqrt maps [0,1] into [0,1]": (_SUM, "sqrt_unit"), "mask_rank": (_SUM, "mask_rank"), "first_occurrence": (_SUM, "first_occurrence")}
+              "exp_log_inverse": (_SUM, "exp_log_inverse"), "sqrt maps [0,1] into [0,1]": (_SUM, "sqrt_unit"), "mask_rank": (_SUM, "mask_rank"), "first_occurrence": (_SUM, "first_occurrence"),
+              "cnt_step": (_CNT, "cnt_step"), "mul_steps": (_CNT, "mul_steps"), "sum_one_out": (_CNT, "sum_one_out"), "sum_zero_terms": (_SUM, "sum_zero_terms")}
 
 
 def lean_note(lemma, lean_results):
